@@ -6,10 +6,13 @@
    the depth by one saturating at zero and removes the newest entry.  Which instructions push and
    pop is part of the model that is compared with the implementation after every step (depth and
    frame list are fields of `sim.run` observations) and checked against an independent event
-   count by harness area simprops.  The per-step composition is C27_*_partial material: pending. *)
+   count by harness area simprops.  Composed over whole instructions (C27_instruction_depth,
+   C27_interrupt_entry_depth): whenever an instruction completes, the depth afterwards is the
+   depth before plus one for JSR/JSRR and TRAP, minus one saturating at zero for RET (JMP R7) and
+   RTI, and unchanged for every other instruction; taking an interrupt adds one. *)
 From Coq Require Import ZArith List Bool.
 From Model Require Import Bits Word Instr Sim.
-From Proofs Require Import SimAccess.
+From Proofs Require Import SimAccess SimFrames.
 Open Scope Z_scope.
 
 Theorem C27_push : forall a b f s,
@@ -34,6 +37,31 @@ Theorem C27_args_by_register : forall a b f s fs rs,
   exists top, s_frames (fst (push_frame a b f s)) = Some (top :: fs) /\ f_fp top = None /\ f_args top = map (fun r => rget (s_regs s) r) rs.
 Proof. exact push_frame_args_pbr. Qed.
 Print Assumptions C27_args_by_register.
+
+Theorem C27_instruction_depth : forall e i s s' u,
+  exec e i s = (s', inl u) -> s_frame_no s' = depth_effect i (s_frame_no s).
+Proof. intros e i s s' u E. exact (exec_depth e i s s' u E). Qed.
+Print Assumptions C27_instruction_depth.
+
+Theorem C27_depth_effect_table : forall i n,
+  depth_effect i n = match i with
+                     | SJSR _ | STRAP _ => n + 1
+                     | SRTI => Z.max 0 (n - 1)
+                     | SJMP br => if br =? 7 then Z.max 0 (n - 1) else n
+                     | _ => n
+                     end.
+Proof. reflexivity. Qed.
+Print Assumptions C27_depth_effect_table.
+
+Theorem C27_interrupt_entry_depth : forall e v p s s' u,
+  handle_interrupt e v (Some p) s = (s', inl u) -> psr_priority (s_psr s) < p -> s_frame_no s' = s_frame_no s + 1.
+Proof. exact fe_handle_interrupt_some. Qed.
+Print Assumptions C27_interrupt_entry_depth.
+
+Theorem C27_trap_exception_entry_depth : forall e v s s' u,
+  handle_interrupt e v None s = (s', inl u) -> s_frame_no s' = s_frame_no s + 1.
+Proof. intros e v s s' u E. exact (fe_handle_interrupt_none e v s s' u E). Qed.
+Print Assumptions C27_trap_exception_entry_depth.
 
 (* built-in trap signatures: GETC/IN return in R0, OUT/PUTS/PUTSP take R0, HALT nothing *)
 Example C27_trap_signatures :
